@@ -56,6 +56,7 @@ def Job.vis (jb : Job) : Option State × List (List Nat) × Bool := (jb.st, jb.o
 /-- job-local effect of processing one frame whose points were given the uuids `us`
 (mirrors `init_level` for the first frame, `next_level` afterwards; the points exist — and have
 drawn their uuids — before the sub-nets are computed, so a raising step keeps `us`) -/
+-- mirrors trackpy/linking/linking.py:468-491 (init_level), 516-522 (next_level), 445-466 (update_hash)
 def Job.frame (cfg : Cfg) (jb : Job) (us : List Nat) (t : Int) (dsts : List Pos) : Job :=
   match jb.st with
   | none =>
@@ -78,6 +79,7 @@ def upd {α} (f : Nat → α) (j : Nat) (v : α) : Nat → α := fun k => if k =
 def Sys.init0 (u0 : Nat) : Sys := { jobs := fun _ => {}, uid := u0 }
 
 /-- first uuid of the level job `jb` is about to create -/
+-- mirrors trackpy/linking/utils.py:112-118 (Point.counter, uuid), linking.py:469-473, 462-463
 def uidBase (m : UidMode) (s : Sys) (jb : Job) : Nat :=
   match m with
   | .perLinker => if jb.st.isNone then 0 else jb.nextUid
@@ -92,6 +94,7 @@ def uidAfter (m : UidMode) (s : Sys) (jb : Job) (n : Nat) : Nat :=
   | .shared => s.uid + n
 
 /-- one operation of the system; a dead job ignores further frames -/
+-- mirrors trackpy/linking/linking.py:20-110 (link_iter: one `next()` = one init_level / next_level)
 def stepSys (m : UidMode) (cfgs : Nat → Cfg) (s : Sys) : Op → Sys
   | .frame j t dsts =>
     let jb := s.jobs j
